@@ -76,6 +76,45 @@ def check_object(el, v, res, case, out, stats, model_agrees):
                 out.failures.append({"case": case, "what": f"attribute {name} is {attr}, expected default {exp}", "finding": region if model_agrees else None})
 
 
+def omission_oracle(el, v, case, out, stats, model_agrees=True):
+    """`v` was rejected.  If the same data with the (valid) defaults of the omitted properties written out is accepted,
+    the rejection is on account of an omitted property that has a default — which must never be an error."""
+    props = getattr(el, "properties", None)
+    if not isinstance(props, dict) or not isinstance(v, dict):
+        return
+    for guard in ("minProperties", "maxProperties", "dependencies", "propertyNames", "const", "enum"):
+        if not isinstance(getattr(el, guard, NotPassed()), NotPassed):
+            return
+    fill = {}
+    for name, prop in props.items():
+        src = prop.source or name
+        if src in v:
+            continue
+        d = getattr(prop.element, "default", NotPassed())
+        if isinstance(d, NotPassed):
+            continue
+        try:
+            prop.element(d)
+        except Exception:  # noqa: BLE001 - an invalid default among the omitted ones: a different clause
+            return
+        fill[src] = d
+    if not fill:
+        return
+    try:
+        el({**v, **fill})
+    except Exception:  # noqa: BLE001 - rejected for some other reason
+        return
+    # known region: the name is in an explicit `required` keyword list of an untyped element (class-based models and
+    # required *property flags* let the default fill; the explicit list does not)
+    explicit = getattr(el, "required", NotPassed())
+    explicit = list(explicit) if isinstance(explicit, (list, tuple)) else []
+    blamed = [k for k in fill if k in explicit]
+    finding = "C05-explicit-required-list" if blamed and model_agrees else None
+    stats["omission-oracle-fired-" + str(finding)] = stats.get("omission-oracle-fired-" + str(finding), 0) + 1
+    out.failures.append({"case": case, "what": f"rejected although the same data with the defaults of the omitted properties {sorted(fill)} written out "
+                         "is accepted: omitting a property that has a default became an error", "finding": finding})
+
+
 def check_case(drv, schema, values, out, stats):
     values = list(values) + [core.NP]
     obs = observe(drv, schema, values, out, stats)
@@ -95,6 +134,9 @@ def check_case(drv, schema, values, out, stats):
             elif real["r"] == "reject":
                 out.failures.append({"case": case, "what": "calling without a value raised the validation error", "finding": None})
             continue
+        if real["r"] == "reject" and isinstance(v, dict):
+            stats["rejected-objects"] = stats.get("rejected-objects", 0) + 1
+            omission_oracle(el, v, case, out, stats, agrees)
         if real["r"] != "ok" or not isinstance(v, dict):
             continue
         try:
@@ -179,6 +221,9 @@ def dsl_case(drv, rng, out, stats):
         agrees = model == real or model["r"] == "crash"
         if not agrees and real["r"] in ("ok", "reject"):
             out.disagreements.append({"what": "call result (DSL model)", "impl": real, "model": model, "element": dump, "value": enc})
+        if real["r"] == "reject":
+            stats["dsl-rejected"] = stats.get("dsl-rejected", 0) + 1
+            omission_oracle(el, v, {"element": dump, "value": enc}, out, stats, agrees)
         if real["r"] != "ok":
             continue
         out.note_case({"element": dump, "value": enc}, True)
@@ -249,7 +294,8 @@ def _fails(schema, value, element=None):
     try:
         res = el(value)
     except Exception:  # noqa: BLE001
-        return False
+        omission_oracle(el, value, {}, out, stats)
+        return bool(out.failures)
     check_object(el, value, res, {}, out, stats, True)
     return bool(out.failures)
 
